@@ -5,7 +5,7 @@
    library record, and all raw namespaces. *)
 From Coq Require Import ZArith List Bool Lia.
 From Batchie Require Import Lib.Sexp Lib.PyRt Model.Cli Generated.SrcCli Generated.SrcCliArgs Proofs.PyRtLemmas
-  Proofs.C04SourceCli Proofs.C18SourceArgs.
+  Proofs.C04SourceCli Proofs.C18SourceArgs Proofs.C18SourceIntrospect.
 Import ListNotations.
 Open Scope Z_scope.
 
@@ -39,4 +39,15 @@ Proof.
   destruct (tm_load_screen L (tm_data (tm_plain a))) as [s|e]; cbn [res_bind]; [|reflexivity].
   destruct (tm_from_screen L s); cbn [res_bind]; [|reflexivity].
   destruct (unwrap (tm_model_cls a)); cbn [res_bind]; reflexivity.
+Qed.
+
+Theorem src_cli_train_model_cmd_world :
+  forall (Mod Obj F O : Type) (W : pyworld Mod Obj) (P : pyprims F O) (Scr Sub Sp Mo Th : Type)
+         (construct : Obj -> list (str * pval F O) -> result Mo) (L : tm_lib Scr Sub Sp (list (str * pval F O)) Mo Th)
+         (raw : tm_ns Obj F O),
+  src_cli_train_model_cmd Obj F O (introspect_src W) P Scr Sub Sp Mo Th construct L raw
+  = cli_train_model_cmd (introspect_of W) P construct L raw.
+Proof.
+  intros. rewrite src_cli_train_model_cmd_is_model.
+  unfold cli_train_model_cmd, tm_get_args. now rewrite resolve_src.
 Qed.
